@@ -94,6 +94,16 @@ impl<T> Vec<T> {
         self.n -= 1;
         r
     }
+    /// removes element `idx` by moving the last element into its place (order not preserved)
+    pub fn swap_remove(&mut self, idx: usize) -> T {
+        assert!(idx < self.n, "swap_remove index out of bounds");
+        let r = unsafe { self.a[idx].assume_init_read() };
+        self.n -= 1;
+        if idx != self.n {
+            self.a[idx] = MaybeUninit::new(unsafe { self.a[self.n].assume_init_read() });
+        }
+        r
+    }
     pub fn retain<F: FnMut(&T) -> bool>(&mut self, mut f: F) {
         let mut w = 0;
         let mut r = 0;
